@@ -28,7 +28,10 @@ def main(ctx):
     # (2) the caller's datasets stay untouched by the image preparation of a multiscale run
     for b in (0, 2):
         J.append({'mod': MOD, 'fn': 'inputs_untouched', 'mode': 'sym', 'args': {'bands': b, 'cap': cap}})
+    # ... and by the image preparation of the cross-based aggregation (masking + median prefilter work on copies)
+    J.append({'mod': MOD, 'fn': 'cbca_inputs', 'mode': 'sym', 'args': {'cap': cap}})
     if not ctx.quick:
+        J.append({'mod': MOD, 'fn': 'cbca_inputs', 'mode': 'sym', 'args': {'H': 3, 'W': 4, 'subpix': 2, 'cap': cap}})
         J.append({'mod': MOD, 'fn': 'inputs_untouched', 'mode': 'sym', 'args': {'bands': 3, 'R': 3, 'C': 4, 'cap': cap}})
     # (3) class-level schema dictionaries shared between step classes: acceptance of a class does not depend on the classes checked before
     hist = [('census', ['window_size'], [('sad', {'window_size': 7}), ('zncc', {'window_size': 9})]),
